@@ -369,6 +369,12 @@ func (u *Unit) lockOp(st *State, call *ast.CallExpr, op string) {
 		// other goroutines may have changed everything the lock guards
 		s := structOf(ls.owner)
 		for _, g := range ls.spec.Guards {
+			if strings.HasPrefix(g, "owns:") {
+				// a permission ghost the lock owns: whatever this goroutine believed about it is void, the invariant
+				// (assumed below) hands out what the lock currently holds
+				u.havocOwned(st, strings.TrimPrefix(g, "owns:"))
+				continue
+			}
 			if gh, isGhost := u.eng.cs.Ghosts[g]; isGhost {
 				// a ghost the lock protects (shared bookkeeping): havoc it at this object too
 				genv := &specEnv{u: u, st: st, vars: map[string]Val{}, pkg: u.pkg.Types}
@@ -443,7 +449,25 @@ func (u *Unit) lockOp(st *State, call *ast.CallExpr, op string) {
 		}
 		delete(st.held, ls.key)
 		delete(st.held, ls.key+"#r")
+		// permissions the lock owns go back to the lock: nothing learnt about them under the lock survives the release
+		for _, g := range ls.spec.Guards {
+			if strings.HasPrefix(g, "owns:") {
+				u.havocOwned(st, strings.TrimPrefix(g, "owns:"))
+			}
+		}
 	}
+}
+
+func (u *Unit) havocOwned(st *State, name string) {
+	gh, ok := u.eng.cs.Ghosts[name]
+	if !ok {
+		u.reject("contract error: lock owns unknown ghost %s", name)
+		return
+	}
+	genv := &specEnv{u: u, st: st, vars: map[string]Val{}, pkg: u.pkg.Types}
+	sort := u.ghostSort(genv, gh)
+	u.heapTerm(st, "G$"+gh.Name, sort)
+	u.havocHeap(st, "G$"+gh.Name)
 }
 
 // checkGuarded emits an obligation when a lock-guarded field is accessed without the lock.
